@@ -76,6 +76,7 @@
 #include "token_pairs.h"
 #include "writer.h"
 #include "version.h"
+#include "verif_hooks.h"
 
 
 // Basic parser function declarations
@@ -2304,6 +2305,8 @@ handle_line:
 
 /// Parse part of the string into a token tree
 token * mmd_engine_parse_substring(mmd_engine * e, size_t byte_start, size_t byte_len) {
+	MMD6_POINT(MMD6_PT_PARSE_ENTRY);
+
 	// Fix indeterminant length
 	if (byte_len == -1) {
 		byte_len = e->dstr->currentStringLength - byte_start;
